@@ -29,7 +29,7 @@ import (
 )
 
 var c04Alphabet = []string{"", "@k0", "0", "-1", "1", "9223372036854775807", "-9223372036854775808",
-	"4611686018427387904", "abc", "*", "[", "nx", "ex", "px", "limit", "withscores", "count", "(1", "1-1", "-", "+", "~"}
+	"4611686018427387904", "-4611686018427387903", "abc", "*", "[", "nx", "ex", "px", "limit", "withscores", "count", "(1", "1-1", "-", "+", "~"}
 
 var c04Reduced = []string{"@k0", "0", "-1"}
 
